@@ -8,6 +8,7 @@ mod model;
 mod persist;
 mod procsim;
 mod sched;
+mod selftest;
 mod store;
 mod simprog;
 mod util;
@@ -134,6 +135,26 @@ fn main() {
                 2
             })
         }
+        Some("selftest") => match args.get(2).map(|s| s.as_str()) {
+            Some("conformance") => selftest::conformance(args.get(3).and_then(|s| s.parse().ok()).unwrap_or(40)),
+            Some("determinism") => {
+                let runs: u64 = args.get(3).and_then(|s| s.parse().ok()).unwrap_or(200);
+                let mut code = 0;
+                for id in ["C06", "C07", "C08", "C09", "C10", "C11", "C13", "C14", "C17", "C18", "C19"] {
+                    let r = with_workload!(id, w => framework::determinism_selftest(&w, Tier::Quick, framework::verif_seed(), runs), Err("?".into()));
+                    match r {
+                        Ok(v) => println!("determinism {id}: {v}"),
+                        Err(e) => {
+                            println!("determinism {id}: FAILED {e}");
+                            code = 2;
+                        }
+                    }
+                }
+                procsim::cleanup_scratch();
+                code
+            }
+            _ => usage(),
+        },
         Some("exec") => {
             // skasim exec SEED CORES POLICY HOOKS -- ska args   (debug aid; runs in the cwd)
             let p = procsim::Proc {
